@@ -264,6 +264,27 @@ func (w *wWorker) run(e *wEdge, variant int) {
 			m["session"] = 1
 		}
 	}
+	if e.Body == "missing-cred" {
+		// prime: a request of the same endpoint with an administrator's credentials that is refused for its (invalid) target, so
+		// that nothing changes - then the probe without any credential member
+		prime := map[string]interface{}{"session": w.tokens["tok-Alice"], "username": "../nobody", "password": wPw["pw-Alice"], "newpassword": "x", "admin": false}
+		if e.Ep == "authenticate" {
+			prime = map[string]interface{}{"username": "Alice", "password": wPw["pw-Alice"]}
+		}
+		if e.Ep == "update" && variant%2 == 1 {
+			prime = map[string]interface{}{"username": "Alice", "oldpassword": wPw["pw-Alice"], "newpassword": ""}
+		}
+		pb, _ := json.Marshal(prime)
+		for i := 0; i < 3; i++ {
+			w.do(path, pb)
+		}
+		delete(m, "session")
+		delete(m, "oldpassword")
+		delete(m, "password")
+		if variant%3 == 2 { // ... or explicitly null
+			m["session"], m["password"], m["oldpassword"] = nil, nil, nil
+		}
+	}
 	body, _ := json.Marshal(m)
 	if e.Body == "malformed" {
 		body = [][]byte{body[:len(body)/2], []byte("{"), []byte(""), []byte("[]"), []byte("{\"session\": }")}[variant%5]
